@@ -1,6 +1,7 @@
 (* C16 proofs, part 4: facts about the reader that hold for ALL inputs (any lines, any file
-   map, any fuel): the `continuation or not full_line` guard never decides anything, and no
-   text handed to the requirement parser starts with an option token. *)
+   map, any fuel): the `continuation or not full_line` guard never decides anything, no
+   text handed to the requirement parser starts with an option token, `line_parts[0]` never
+   raises, and the newline readlines() leaves on the lines does not matter. *)
 From Coq Require Import List String Ascii Bool Arith Lia.
 From RC Require Import lib.PyStr gen.ReqFileConstsC16 model.ReqFileC16 proofs.ReqFileC16P proofs.ReqFileC16Main.
 Import ListNotations.
@@ -9,20 +10,29 @@ Open Scope nat_scope.
 
 Section Guard.
   Variable valid : string -> bool.
-  Variable rec_file : string -> out -> res.
   Variable dir : string.
 
-  Lemma classify_line_ext k1 k2 fl acc : (forall a, k1 a = k2 a) ->
-    classify_line valid rec_file dir k1 fl acc = classify_line valid rec_file dir k2 fl acc.
+  Lemma classify_parts_ext rec1 rec2 k1 k2 fl parts acc :
+    (forall p a, rec1 p a = rec2 p a) -> (forall a, k1 a = k2 a) ->
+    classify_parts valid rec1 dir k1 fl parts acc = classify_parts valid rec2 dir k2 fl parts acc.
   Proof.
-    intros H. unfold classify_line. destruct (split_ws fl) as [|p0 ps]; [reflexivity|].
+    intros Hr H. unfold classify_parts. destruct parts as [|p0 ps]; [reflexivity|].
     destruct (existsb (String.eqb p0) c16_include_flags).
     - destruct (nth_error (p0 :: ps) c16_include_arg_index); [|reflexivity].
-      destruct (rec_file _ acc); [apply H|reflexivity].
+      rewrite Hr. destruct (rec2 _ acc); [apply H|reflexivity].
     - destruct (startswith p0 c16_option_prefix); [apply H|].
       destruct (valid _); [apply H|reflexivity].
   Qed.
+  Lemma classify_line_ext rec1 rec2 k1 k2 fl acc :
+    (forall p a, rec1 p a = rec2 p a) -> (forall a, k1 a = k2 a) ->
+    classify_line valid rec1 dir k1 fl acc = classify_line valid rec2 dir k2 fl acc.
+  Proof.
+    intros Hr H. unfold classify_line. destruct (split_ws fl) as [|p0 ps]; [reflexivity|].
+    destruct (startswith p0 c16_option_prefix); [|apply classify_parts_ext; assumption].
+    destruct (option_parts fl); [apply classify_parts_ext; assumption|reflexivity].
+  Qed.
 
+  Variable rec_file : string -> out -> res.
   (* every state the loop reaches satisfies `continuation \/ full_line = ""`, so the guarded
      append is always taken: the loop equals the loop without the guard *)
   Lemma guard_never_decides : forall lines s acc, appending s ->
@@ -35,9 +45,110 @@ Section Guard.
     rewrite appending_cond by exact Hs.
     destruct (has_char c16_cont (strip raw)).
     - destruct (negb (last_is c16_cont (strip raw))); [reflexivity|]. apply IH. left; reflexivity.
-    - apply classify_line_ext. intros a. apply IH. right; reflexivity.
+    - apply classify_line_ext; [reflexivity|]. intros a. apply IH. right; reflexivity.
   Qed.
 End Guard.
+
+(* ------------------------------------------------------------------ the joined line never starts with white space *)
+Definition fl_ok (fl : string) : Prop := fl = "" \/ starts_np is_space fl = true.
+Definition st_ok (s : st) : Prop := fl_ok (full s).
+
+Lemma lstrip_shape p s : lstrip_by p s = "" \/ exists c x, lstrip_by p s = String c x /\ p c = false.
+Proof.
+  induction s as [|c s IH]; cbn [lstrip_by]; [left; reflexivity|].
+  destruct (p c) eqn:E; [exact IH|right; eauto].
+Qed.
+Lemma strip_nonempty_head raw : strip raw <> "" -> exists c x, strip raw = String c x /\ is_space c = false.
+Proof.
+  unfold strip. intros H. destruct (lstrip_shape is_space raw) as [E | (c & x & E & Hc)]; rewrite E in *.
+  - exfalso. apply H. reflexivity.
+  - destruct (rstrip_keeps_head is_space c x Hc) as (y & Ey). exists c, y. split; assumption.
+Qed.
+Lemma lstrip_snoc p A c : lstrip_by p (A ++ String c "") = "" \/ exists B, lstrip_by p (A ++ String c "") = B ++ String c "".
+Proof.
+  induction A as [|d A IH]; cbn [append lstrip_by].
+  - destruct (p c); [left; reflexivity|right; exists ""; reflexivity].
+  - destruct (p d); [exact IH|right; exists (String d A); reflexivity].
+Qed.
+Lemma rstrip_head_or_nil p c x : rstrip_by p (String c x) = "" \/ exists y, rstrip_by p (String c x) = String c y.
+Proof.
+  unfold rstrip_by. rewrite rev_cons. destruct (lstrip_snoc p (rev_str x) c) as [E | (B & E)]; rewrite E.
+  - left; reflexivity.
+  - right. rewrite rev_app. cbn. eexists; reflexivity.
+Qed.
+
+Lemma next_fl_ok s raw : st_ok s -> strip raw <> "" ->
+  fl_ok (if cont s || String.eqb (full s) "" then full s ++ rstrip_chars cont_str (strip raw) else full s).
+Proof.
+  intros Hs Hne. destruct (cont s || String.eqb (full s) ""); [|exact Hs].
+  destruct (strip_nonempty_head raw Hne) as (c & x & E & Hc). rewrite E, rstrip_cont_ext.
+  destruct Hs as [Hs | Hs].
+  - rewrite Hs. cbn [append]. destruct (rstrip_head_or_nil (fun d => Ascii.eqb d bs) c x) as [E2 | (y & E2)]; rewrite E2.
+    + left; reflexivity.
+    + right. cbn. rewrite Hc. reflexivity.
+  - right. apply starts_np_app. exact Hs.
+Qed.
+
+Lemma fl_head fl p0 ps : fl_ok fl -> split_ws fl = p0 :: ps -> startswith p0 "-" = true -> exists r, fl = String "-"%char r.
+Proof.
+  intros [-> | Hs] Hp Hd; [discriminate|]. destruct fl as [|c x]; [discriminate|]. cbn in Hs. apply negb_true_iff in Hs.
+  destruct (split_head c x Hs) as (y & r & E). rewrite E in Hp. injection Hp as <- _.
+  unfold startswith in Hd. cbn [prefixb] in Hd. rewrite andb_true_r in Hd. apply Ascii.eqb_eq in Hd. subst c. eauto.
+Qed.
+
+(* ---- the first token of an option line starts with '-' *)
+Lemma snoc_nonempty t : t ++ "-" <> "".
+Proof. destruct t; discriminate. Qed.
+Lemma sh_first_dash : forall s st tok' quoted l, st <> SW ->
+  shlex_go s st (tok' ++ "-") quoted = Some l -> exists q0 r, l = q0 :: r /\ startswith q0 "-" = true.
+Proof.
+  assert (Hemit : forall tok' quoted X l, sh_emit (tok' ++ "-") quoted X = Some l ->
+                  exists q0 r, l = q0 :: r /\ startswith q0 "-" = true).
+  { intros tok' quoted X l. unfold sh_emit.
+    replace (String.eqb (tok' ++ "-") "") with false by (destruct tok'; reflexivity). cbn [negb orb].
+    destruct X as [x|]; [|discriminate]. cbn [option_map]. intros E. injection E as <-.
+    eexists; eexists; split; [reflexivity|]. rewrite rev_app. reflexivity. }
+  induction s as [|c s IH]; intros st tok' quoted l Hst H.
+  - destruct st; cbn [shlex_go] in H; try discriminate; [congruence|]. eapply Hemit; exact H.
+  - destruct st as [| |q|[q|]]; cbn [shlex_go] in H; [congruence| | | |].
+    + destruct (shlex_ws c); [eapply Hemit; exact H|].
+      destruct (is_quote c); [eapply IH; [|exact H]; discriminate|].
+      destruct (Ascii.eqb c bslash); [eapply IH; [|exact H]; discriminate|].
+      change (String c (tok' ++ "-")) with (String c tok' ++ "-") in H. eapply IH; [|exact H]; discriminate.
+    + destruct (Ascii.eqb c q); [eapply IH; [|exact H]; discriminate|].
+      destruct (Ascii.eqb c bslash && Ascii.eqb q dquote); [eapply IH; [|exact H]; discriminate|].
+      change (String c (tok' ++ "-")) with (String c tok' ++ "-") in H. eapply IH; [|exact H]; discriminate.
+    + destruct (negb (Ascii.eqb c bslash) && negb (Ascii.eqb c q)).
+      * change (String c (String bslash (tok' ++ "-"))) with (String c (String bslash tok') ++ "-") in H.
+        eapply IH; [|exact H]; discriminate.
+      * change (String c (tok' ++ "-")) with (String c tok' ++ "-") in H. eapply IH; [|exact H]; discriminate.
+    + change (String c (tok' ++ "-")) with (String c tok' ++ "-") in H. eapply IH; [|exact H]; discriminate.
+Qed.
+
+Lemma include_eq_dash q0 t : startswith q0 "-" = true ->
+  exists q0' t', include_eq (q0 :: t) = q0' :: t' /\ startswith q0' "-" = true.
+Proof.
+  intros H. unfold include_eq. destruct (partition_char "="%char q0) as [[flag found] value].
+  destruct found; [|eauto]. destruct gen_ok as (_ & _ & -> & _). cbn [existsb].
+  destruct (String.eqb flag "-r") eqn:E1; [apply String.eqb_eq in E1; subst; cbn [orb]; eauto|].
+  destruct (String.eqb flag "--requirement") eqn:E2; [apply String.eqb_eq in E2; subst; cbn [orb]; eauto|].
+  cbn [orb]. eauto.
+Qed.
+
+Lemma option_parts_dash r parts : option_parts (String "-"%char r) = Some parts ->
+  exists q0 t, parts = q0 :: t /\ startswith q0 "-" = true.
+Proof.
+  unfold option_parts, drop_comment. cbn [drop_comment_go].
+  replace (Ascii.eqb "-"%char hash_char) with false by reflexivity. cbn [andb].
+  replace (is_space "-"%char) with false by reflexivity. cbn [rev_str rev_str_acc append].
+  unfold shlex_split. cbn [shlex_go].
+  replace (shlex_ws "-"%char) with false by reflexivity.
+  replace (Ascii.eqb "-"%char bslash) with false by reflexivity.
+  replace (is_quote "-"%char) with false by reflexivity.
+  destruct (shlex_go _ SA "-" false) as [l|] eqn:E; [|discriminate]. cbn [option_map]. intros H. injection H as <-.
+  destruct (sh_first_dash _ SA "" false l ltac:(discriminate) E) as (q0 & t & -> & Hd).
+  destruct (include_eq_dash q0 t Hd) as (q0' & t' & -> & Hd'). eauto.
+Qed.
 
 (* ------------------------------------------------------------------ texts are never options *)
 Definition good_text (t : string) : Prop :=
@@ -71,41 +182,60 @@ Section Texts.
   Lemma inv_snoc o t : inv o -> good_text t -> inv ((fst o ++ [t])%list, snd o).
   Proof. unfold inv. cbn [fst]. intros H1 H2. apply Forall_app; split; [exact H1|constructor; [exact H2|constructor]]. Qed.
 
-  Lemma classify_inv rec_file dir k fl acc :
+  Lemma classify_parts_inv rec_file dir k fl parts acc :
+    (parts = split_ws fl \/ exists q0 t, parts = q0 :: t /\ startswith q0 "-" = true) ->
     (forall p a, inv a -> inv (res_out (rec_file p a))) ->
     (forall a, inv a -> inv (res_out (k a))) ->
-    inv acc -> inv (res_out (classify_line valid rec_file dir k fl acc)).
+    inv acc -> inv (res_out (classify_parts valid rec_file dir k fl parts acc)).
   Proof.
-    intros Hrec Hk Hacc. unfold classify_line.
-    destruct (split_ws fl) as [|p0 ps] eqn:Es; [exact Hacc|].
+    intros Hparts Hrec Hk Hacc. unfold classify_parts.
+    destruct parts as [|p0 ps]; [exact Hacc|].
     destruct (existsb (String.eqb p0) c16_include_flags).
     - destruct (nth_error (p0 :: ps) c16_include_arg_index) as [p1|]; [|exact Hacc].
       specialize (Hrec (path_join (dir_or_default dir) (strip p1)) acc Hacc).
       destruct (rec_file _ acc) as [acc'|e o]; [apply Hk; exact Hrec|exact Hrec].
     - destruct gen_ok as (_ & _ & _ & _ & _ & Eo & _). rewrite Eo.
       destruct (startswith p0 "-") eqn:Ed; [apply Hk; exact Hacc|].
-      pose proof (req_text_good fl p0 ps Es Ed) as Hg.
+      destruct Hparts as [Es | (q0 & t & E & Hd)]; [|injection E as -> _; congruence].
+      pose proof (req_text_good fl p0 ps (eq_sym Es) Ed) as Hg.
       destruct (valid _); [apply Hk|]; apply inv_snoc; assumption.
+  Qed.
+
+  Lemma classify_inv rec_file dir k fl acc : fl_ok fl ->
+    (forall p a, inv a -> inv (res_out (rec_file p a))) ->
+    (forall a, inv a -> inv (res_out (k a))) ->
+    inv acc -> inv (res_out (classify_line valid rec_file dir k fl acc)).
+  Proof.
+    intros Hfl Hrec Hk Hacc. unfold classify_line.
+    destruct (split_ws fl) as [|p0 ps] eqn:Es; [exact Hacc|].
+    destruct gen_ok as (_ & _ & _ & _ & _ & Eo & _). rewrite Eo.
+    destruct (startswith p0 "-") eqn:Ed.
+    - destruct (fl_head fl p0 ps Hfl Es Ed) as (r & ->).
+      destruct (option_parts (String "-"%char r)) as [parts|] eqn:Eo2; [|exact Hacc].
+      apply classify_parts_inv; try assumption. right. eapply option_parts_dash; exact Eo2.
+    - apply classify_parts_inv; try assumption. left. symmetry; exact Es.
   Qed.
 
   Lemma iter_lines_inv rec_file dir :
     (forall p a, inv a -> inv (res_out (rec_file p a))) ->
-    forall lines s acc, inv acc -> inv (res_out (iter_lines valid rec_file dir lines s acc)).
+    forall lines s acc, st_ok s -> inv acc -> inv (res_out (iter_lines valid rec_file dir lines s acc)).
   Proof.
-    intros Hrec. induction lines as [|raw rest IH]; intros s acc Hacc; [exact Hacc|].
+    intros Hrec. induction lines as [|raw rest IH]; intros s acc Hs Hacc; [exact Hacc|].
     cbn [iter_lines].
-    destruct (String.eqb (strip raw) ""); [apply IH; exact Hacc|].
-    destruct (startswith (strip raw) c16_comment_prefix); [apply IH; exact Hacc|].
+    destruct (String.eqb (strip raw) "") eqn:Ee; [apply IH; assumption|].
+    destruct (startswith (strip raw) c16_comment_prefix); [apply IH; assumption|].
+    assert (Hne : strip raw <> "") by (intros E; rewrite E in Ee; discriminate).
+    pose proof (next_fl_ok s raw Hs Hne) as Hfl.
     destruct (has_char c16_cont (strip raw)).
-    - destruct (negb (last_is c16_cont (strip raw))); [exact Hacc|apply IH; exact Hacc].
-    - apply classify_inv; [exact Hrec| |exact Hacc]. intros a Ha. apply IH; exact Ha.
+    - destruct (negb (last_is c16_cont (strip raw))); [exact Hacc|apply IH; [exact Hfl|exact Hacc]].
+    - apply classify_inv; [exact Hfl|exact Hrec| |exact Hacc]. intros a Ha. apply IH; [left; reflexivity|exact Ha].
   Qed.
 
   Variable fs : string -> option (list string).
   Lemma iter_file_inv : forall fuel p a, inv a -> inv (res_out (iter_file valid fs fuel p a)).
   Proof.
     induction fuel as [|f IH]; intros p a Ha; cbn [iter_file]; [exact Ha|].
-    destruct (fs p) as [lines|]; [|exact Ha]. apply iter_lines_inv; [exact IH|exact Ha].
+    destruct (fs p) as [lines|]; [|exact Ha]. apply iter_lines_inv; [exact IH|left; reflexivity|exact Ha].
   Qed.
 
   (* whatever the files contain, and whether or not the read ends in an error: every text
@@ -136,17 +266,6 @@ Proof.
 Qed.
 
 (* ------------------------------------------------------------------ line_parts[0] never fails *)
-Lemma lstrip_shape p s : lstrip_by p s = "" \/ exists c x, lstrip_by p s = String c x /\ p c = false.
-Proof.
-  induction s as [|c s IH]; cbn [lstrip_by]; [left; reflexivity|].
-  destruct (p c) eqn:E; [exact IH|right; eauto].
-Qed.
-Lemma strip_nonempty_head raw : strip raw <> "" -> exists c x, strip raw = String c x /\ is_space c = false.
-Proof.
-  unfold strip. intros H. destruct (lstrip_shape is_space raw) as [E | (c & x & E & Hc)]; rewrite E in *.
-  - exfalso. apply H. reflexivity.
-  - destruct (rstrip_keeps_head is_space c x Hc) as (y & Ey). exists c, y. split; assumption.
-Qed.
 Lemma split_acc_nonempty s : forall acc, (acc <> "" \/ all_chars is_space s = false) -> split_ws_acc s acc <> [].
 Proof.
   induction s as [|c s IH]; intros acc H; cbn [split_ws_acc].
@@ -162,11 +281,11 @@ Definition no_head (r : res) : Prop := forall o, r <> Err IndexErrorHead o.
 Section Head.
   Variable valid : string -> bool.
 
-  Lemma classify_no_head rec_file dir k fl acc :
-    split_ws fl <> [] -> (forall p a, no_head (rec_file p a)) -> (forall a, no_head (k a)) ->
-    no_head (classify_line valid rec_file dir k fl acc).
+  Lemma classify_parts_no_head rec_file dir k fl parts acc :
+    parts <> [] -> (forall p a, no_head (rec_file p a)) -> (forall a, no_head (k a)) ->
+    no_head (classify_parts valid rec_file dir k fl parts acc).
   Proof.
-    intros Hne Hrec Hk. unfold classify_line. destruct (split_ws fl) as [|p0 ps]; [congruence|].
+    intros Hne Hrec Hk. unfold classify_parts. destruct parts as [|p0 ps]; [congruence|].
     destruct (existsb (String.eqb p0) c16_include_flags).
     - destruct (nth_error (p0 :: ps) c16_include_arg_index) as [p1|]; [|intros o; discriminate].
       pose proof (Hrec (path_join (dir_or_default dir) (strip p1)) acc) as Hr.
@@ -175,18 +294,33 @@ Section Head.
       destruct (valid _); [apply Hk|intros o; discriminate].
   Qed.
 
-  Lemma iter_lines_no_head rec_file dir : (forall p a, no_head (rec_file p a)) ->
-    forall lines s acc, appending s -> no_head (iter_lines valid rec_file dir lines s acc).
+  Lemma classify_no_head rec_file dir k fl acc : fl_ok fl ->
+    split_ws fl <> [] -> (forall p a, no_head (rec_file p a)) -> (forall a, no_head (k a)) ->
+    no_head (classify_line valid rec_file dir k fl acc).
   Proof.
-    intros Hrec. induction lines as [|raw rest IH]; intros s acc Hs; [intros o; discriminate|].
+    intros Hfl Hne Hrec Hk. unfold classify_line. destruct (split_ws fl) as [|p0 ps] eqn:Es; [congruence|].
+    destruct gen_ok as (_ & _ & _ & _ & _ & Eo & _). rewrite Eo.
+    destruct (startswith p0 "-") eqn:Ed.
+    - destruct (fl_head fl p0 ps Hfl Es Ed) as (r & ->).
+      destruct (option_parts (String "-"%char r)) as [parts|] eqn:Eo2; [|intros o; discriminate].
+      destruct (option_parts_dash r parts Eo2) as (q0 & t & -> & _).
+      apply classify_parts_no_head; [discriminate|assumption|assumption].
+    - apply classify_parts_no_head; [discriminate|assumption|assumption].
+  Qed.
+
+  Lemma iter_lines_no_head rec_file dir : (forall p a, no_head (rec_file p a)) ->
+    forall lines s acc, appending s -> st_ok s -> no_head (iter_lines valid rec_file dir lines s acc).
+  Proof.
+    intros Hrec. induction lines as [|raw rest IH]; intros s acc Hs Hok; [intros o; discriminate|].
     cbn [iter_lines].
-    destruct (String.eqb (strip raw) "") eqn:Ee; [apply IH; exact Hs|].
-    destruct (startswith (strip raw) c16_comment_prefix); [apply IH; exact Hs|].
-    rewrite appending_cond by exact Hs.
+    destruct (String.eqb (strip raw) "") eqn:Ee; [apply IH; assumption|].
+    destruct (startswith (strip raw) c16_comment_prefix); [apply IH; assumption|].
+    assert (Hne : strip raw <> "") by (intros E; rewrite E in Ee; discriminate).
+    pose proof (next_fl_ok s raw Hok Hne) as Hfl.
+    rewrite appending_cond in * by exact Hs.
     destruct (has_char c16_cont (strip raw)) eqn:Eh.
-    - destruct (negb (last_is c16_cont (strip raw))); [intros o; discriminate|]. apply IH. left; reflexivity.
-    - apply classify_no_head; [|exact Hrec|intros a; apply IH; right; reflexivity].
-      assert (Hne : strip raw <> "") by (intros E; rewrite E in Ee; discriminate).
+    - destruct (negb (last_is c16_cont (strip raw))); [intros o; discriminate|]. apply IH; [left; reflexivity|exact Hfl].
+    - apply classify_no_head; [exact Hfl| |exact Hrec|intros a; apply IH; [right; reflexivity|left; reflexivity]].
       destruct (strip_nonempty_head raw Hne) as (c & x & E & Hc). rewrite E in *.
       destruct gen_ok as (_ & Eb & _). rewrite Eb in Eh.
       rewrite rstrip_cont_ext, rstrip_noop by (apply has_false_all; exact Eh).
@@ -198,10 +332,11 @@ Section Head.
   Lemma iter_file_no_head : forall fuel p a, no_head (iter_file valid fs fuel p a).
   Proof.
     induction fuel as [|f IH]; intros p a; cbn [iter_file]; [intros o; discriminate|].
-    destruct (fs p); [|intros o; discriminate]. apply iter_lines_no_head; [exact IH|right; reflexivity].
+    destruct (fs p); [|intros o; discriminate]. apply iter_lines_no_head; [exact IH|right; reflexivity|left; reflexivity].
   Qed.
 
-  (* `line_parts[0]` never raises: whenever a logical line is complete it has a first token *)
+  (* `line_parts[0]` never raises, neither on the white-space split nor on the shlex tokens of
+     an option line: whenever a logical line is complete it has a first token *)
   Theorem first_part_exists : forall fuel path o, req_iter valid fs fuel path <> Err IndexErrorHead o.
   Proof. intros fuel path. apply iter_file_no_head. Qed.
 End Head.
@@ -239,12 +374,7 @@ Section Newlines.
     destruct (startswith (strip b) c16_comment_prefix); [apply IH; exact Hm|].
     destruct (has_char c16_cont (strip b)).
     - destruct (negb (last_is c16_cont (strip b))); [reflexivity|apply IH; exact Hm].
-    - unfold classify_line. destruct (split_ws _) as [|p0 ps]; [reflexivity|].
-      destruct (existsb (String.eqb p0) c16_include_flags).
-      + destruct (nth_error (p0 :: ps) c16_include_arg_index) as [p1|]; [|reflexivity].
-        rewrite Hrec. destruct (rec2 _ acc); [apply IH; exact Hm|reflexivity].
-      + destruct (startswith p0 c16_option_prefix); [apply IH; exact Hm|].
-        destruct (valid _); [apply IH; exact Hm|reflexivity].
+    - apply classify_line_ext; [exact Hrec|]. intros a0. apply IH; exact Hm.
   Qed.
 
   Variables fs1 fs2 : string -> option (list string).
